@@ -100,6 +100,10 @@ func NewArena(c Case) (*Arena, error) {
 		if c.Spelling == "dstlink-slash" {
 			a.Spelled += "/"
 		}
+	case "abs-doubleslash":
+		a.Spelled = filepath.Dir(a.Dst) + "//dst"
+	case "abs-dots":
+		a.Spelled = filepath.Dir(a.Dst) + "/./dst/../dst/."
 	case "rel-dot":
 		a.Spelled, a.Cwd = ".", a.Dst
 	case "rel-dotslash":
@@ -329,7 +333,7 @@ func GenCase(t *rapid.T, linkWeight, escapeWeight int, withFaults bool, withAllo
 	sp := rapid.IntRange(0, 14).Draw(t, "spelling")
 	switch {
 	case sp > 11:
-		c.Spelling = rapid.SampledFrom([]string{"rel-dot", "rel-dotslash", "rel-name", "rel-updown"}).Draw(t, "relspelling")
+		c.Spelling = rapid.SampledFrom([]string{"rel-dot", "rel-dotslash", "rel-name", "rel-updown", "abs-doubleslash", "abs-dots"}).Draw(t, "relspelling")
 	case sp < 7:
 		c.Spelling = "clean"
 	case sp < 8:
@@ -488,7 +492,7 @@ func scenario(t *rapid.T, rest []tarx.Entry) []tarx.Entry {
 		if a == b {
 			b = b + "2"
 		}
-		tail := rapid.SampledFrom([]string{"/..", "/../..", "/../dst-evil/x", "/../dst-evil", "/../outside"}).Draw(t, "viatail")
+		tail := rapid.SampledFrom([]string{"/..", "/../..", "/../dst-evil/x", "/../dst-evil", "/../outside", "/" + a + "/..", "/" + a + "/" + a + "/../..", "/./" + a + "/../outside"}).Draw(t, "viatail")
 		plant = []tarx.Entry{ent(a, "symlink", "."), ent(b, "symlink", a+tail),
 			third(rapid.SampledFrom([]string{b, b + "/x", "zz/../" + b + "/x", "./" + b, b + "/x/y", b + "/esc/x/y"}).Draw(t, "at"))}
 	case 2: // sibling-prefix target, then a file at the link's name
